@@ -390,7 +390,9 @@ def rule_m3(ctx, facts):
                     if s.endswith("raw::Table::cas_bin") or (is_reclaim_atomic(rc) == "compare_exchange"):
                         # only the `.new` field of the failure value is private
                         fields = {f for base, fs in fl.ref_fields(x) for f in fs} | _use_fields(b, x)
-                        if ("reclaim::CompareExchangeError", "new") in fields and ("reclaim::CompareExchangeError", "current") not in fields:
+                        from .anchors import cas_failure_fields
+                        cas_new, cas_cur = cas_failure_fields(facts)
+                        if fields & cas_new and not fields & cas_cur:
                             newl = op_root(rc.args[3 if s.endswith("cas_bin") else 2])
                             nroots, _ = fl.roots(newl) if newl is not None else (set(), None)
                             if all(is_fresh_alloc(b, b.call_at(q[1])) for q in nroots if q[0] == "call") and nroots:
